@@ -16,6 +16,7 @@ import (
 	"encoding/base64"
 	"encoding/binary"
 	"fmt"
+	"math"
 	"os"
 	"path/filepath"
 	"strings"
@@ -32,8 +33,67 @@ func init() {
 	stub := []string{"hardware (ScriptedSource feeding harness-made blocks with external-trigger lists and drop counts)", "ZMQ publishers and status publisher (sinks)", "net/rpc transport"}
 	for _, p := range []struct{ name, prop string }{{"C06", "C06"}, {"C05b", "C05"}, {"C20", "C20"}} {
 		p := p
-		simrt.Register(&simrt.Check{Name: p.name, Property: p.prop, Body: func(env *simrt.Env) { wcBody(env, p.name) }, Classify: classify, Real: real, Stub: stub})
+		ck := &simrt.Check{Name: p.name, Property: p.prop, Body: func(env *simrt.Env) { wcBody(env, p.name) }, Classify: classify, Real: real, Stub: stub}
+		if p.name == "C06" {
+			ck.Judge = wcJudge
+			ck.Stub = append(append([]string{}, stub...), "full disk for one class of run-log side files (faulted runs: the handle is /dev/full, every write fails with ENOSPC)")
+		}
+		simrt.Register(ck)
 	}
+}
+
+// wcFailStop is the message of the core loop's deliberate panic when block processing returns an
+// error (data_source.go, CoreLoop): the documented fail-stop. In the C06 world it is reached only
+// when the injected disk-full fault makes a write to the external-trigger or data-drop file fail
+// while a block is processed; such a run simply ends there (DESIGN §2.5). Any other panic, and this
+// one without that fault, is a violation as usual.
+const wcFailStop = "Panic to stop source when processSegments errors"
+
+func wcJudge(res *simrt.Result) *simrt.Violation {
+	if res.Crash != nil && strings.Contains(res.Crash.Value, wcFailStop) &&
+		(res.Faults["fulldisk:external_trigger"] > 0 || res.Faults["fulldisk:data_drop"] > 0) {
+		res.Probes["fail-stop:side-file-write-error"]++
+		return nil
+	}
+	if res.Crash != nil {
+		frame := res.Crash.Frame
+		if frame == "" {
+			frame = res.Crash.Value
+			if i := strings.IndexByte(frame, '\n'); i >= 0 {
+				frame = frame[:i]
+			}
+			if len(frame) > 120 {
+				frame = frame[:120]
+			}
+		}
+		st := strings.Split(res.Crash.Stack, "\n")
+		if len(st) > 40 {
+			st = st[:40]
+		}
+		return &simrt.Violation{Rule: "no-panic", Sig: "panic:" + frame, Detail: res.Crash.Value + "\n" + strings.Join(st, "\n")}
+	}
+	if res.Deadlock {
+		return &simrt.Violation{Rule: "no-deadlock", Sig: "deadlock", Detail: "every task blocked for ever"}
+	}
+	return nil
+}
+
+// wcProjSet is one set of projector/basis matrices loaded into a channel.
+type wcProjSet struct {
+	ver    int
+	nbases int
+	proj   []float64 // nbases x nsamp, row-major
+	basis  []float64 // nsamp x nbases, row-major
+}
+
+// wcMakeProj makes identifiable matrices: version 0 is what every world started with so far.
+func wcMakeProj(c, ver, nbases, nsamp int) *wcProjSet {
+	ps := &wcProjSet{ver: ver, nbases: nbases, proj: make([]float64, nbases*nsamp), basis: make([]float64, nbases*nsamp)}
+	for i := range ps.proj {
+		ps.proj[i] = float64((i*7+c+5*ver)%13)*0.125 + float64(ver)
+		ps.basis[i] = float64((i*3+c+ver)%11) - 5 - float64(2*ver)
+	}
+	return ps
 }
 
 type wcSession struct {
@@ -47,7 +107,15 @@ type wcSession struct {
 	stopped  bool
 	stopLo   time.Time
 	stopHi   time.Time
+	// OFF files exist for the channels that had projectors when the session started
+	offEligible []bool
+	projAtStart []*wcProjSet
+	// offProj[c][i]: the matrices in force when the i-th expected OFF record of channel c was analysed
+	offProj [][]*wcProjSet
+	// gone: the operator deleted or renamed the (stopped) session's directory
+	gone bool
 }
+
 
 type wcLabel struct {
 	label  string
@@ -119,27 +187,40 @@ func wcBody(env *simrt.Env, check string) {
 	}
 	// projectors on a drawn subset of channels
 	hasProj := make([]bool, nchan)
+	projNow := make([]*wcProjSet, nchan) // the matrices in force per channel (nil: none)
+	projVer := 0
+	configure := func(c int, ps *wcProjSet) error {
+		pb, _ := mat.NewDense(ps.nbases, nsamp, append([]float64{}, ps.proj...)).MarshalBinary()
+		bb, _ := mat.NewDense(nsamp, ps.nbases, append([]float64{}, ps.basis...)).MarshalBinary()
+		var ok bool
+		return w.sc.ConfigureProjectorsBasis(&ProjectorsBasisObject{ChannelIndex: c, ProjectorsBase64: base64.StdEncoding.EncodeToString(pb),
+			BasisBase64: base64.StdEncoding.EncodeToString(bb), ModelDescription: fmt.Sprintf("verif v%d", ps.ver)}, &ok)
+	}
 	nbases := 1 + simrt.Draw(3)
 	for c := 0; c < nchan; c++ {
 		if simrt.Draw(2) == 0 {
 			continue
 		}
-		pd := make([]float64, nbases*nsamp)
-		bd := make([]float64, nbases*nsamp)
-		for i := range pd {
-			pd[i] = float64((i*7+c)%13) * 0.125
-			bd[i] = float64((i*3+c)%11) - 5
-		}
-		pb, _ := mat.NewDense(nbases, nsamp, pd).MarshalBinary()
-		bb, _ := mat.NewDense(nsamp, nbases, bd).MarshalBinary()
-		var ok bool
-		err := w.sc.ConfigureProjectorsBasis(&ProjectorsBasisObject{ChannelIndex: c, ProjectorsBase64: base64.StdEncoding.EncodeToString(pb),
-			BasisBase64: base64.StdEncoding.EncodeToString(bb), ModelDescription: "verif"}, &ok)
-		if err != nil {
+		ps := wcMakeProj(c, 0, nbases, nsamp)
+		if err := configure(c, ps); err != nil {
 			simrt.Fail("harness.projectors", "harness:projectors", "%v", err)
 		}
 		hasProj[c] = true
+		projNow[c] = ps
 	}
+	// disk-full fault (C06, faulted runs): one class of run-log side files gets a handle whose every
+	// write fails. Record files are never affected.
+	var fullFS *simrt.FaultFS
+	if env.Faulted() && check == "C06" && simrt.Chance(1, 2) {
+		fullFS = simrt.NewFaultFS(env.Dir)
+		class := []string{"experiment_state", "external_trigger", "data_drop"}[simrt.DrawFault(3)]
+		fullFS.FullMatch = []string{class}
+		fullFS.FullFrom = simrt.DrawFault(3)
+		fullFS.FullCount = simrt.DrawFault(3)
+		simrt.SetFS(fullFS)
+		env.Op("fault plan: the disk is full for the %s file from its creation #%d on (%d creations, 0 = all)", class, fullFS.FullFrom, fullFS.FullCount)
+	}
+	diskFull := func() bool { return fullFS != nil && fullFS.FullFired > 0 }
 	env.Op("write-control world rows=%d cols=%d nsamp=%d npre=%d subdiv=%d projectors=%v", rows, cols, nsamp, npre, w.ss.subframeDivisions, hasProj)
 
 	basePath := filepath.Join(env.Dir, "data")
@@ -149,6 +230,7 @@ func wcBody(env *simrt.Env, check string) {
 	state := w.ss.ComputeWritingState()
 	recIdx := 0
 	dirsSeen := map[string]bool{}
+	removed := 0 // run directories deleted or renamed by the operator
 	extNext := int64(100)
 
 	feed := func(nblocks int) {
@@ -209,15 +291,16 @@ func wcBody(env *simrt.Env, check string) {
 			if state.WriteLJH3 {
 				cur.expected[c][1] = append(cur.expected[c][1], r)
 			}
-			if state.WriteOFF && hasProj[c] {
+			if state.WriteOFF && cur.offEligible[c] {
 				cur.expected[c][2] = append(cur.expected[c][2], r)
+				cur.offProj[c] = append(cur.offProj[c], projNow[c])
 			}
 		}
 	}
 
 	request := func() {
 		var ok bool
-		kind := simrt.Draw(12)
+		kind := simrt.Draw(14)
 		prev := state
 		var req string
 		var err error
@@ -249,19 +332,84 @@ func wcBody(env *simrt.Env, check string) {
 			req = []string{"FOO", "UNPAUSEx", "UNPAUSE ", ""}[simrt.Draw(4)]
 			err = w.sc.WriteControl(&WriteControlConfig{Request: req}, &ok)
 			req = fmt.Sprintf("malformed %q", req)
-		default:
+		case kind < 12:
 			lbl := []string{"cal", "dark", "beam on"}[simrt.Draw(3)]
 			req = "label " + lbl
 			err = w.sc.SetExperimentStateLabel(&StateLabelConfig{Label: lbl, WaitForError: true}, &ok)
 			if err == nil && cur != nil && !cur.stopped {
 				cur.labels = append(cur.labels, wcLabel{lbl, lo, lo})
 			}
+		case kind < 13:
+			// projectors/basis are (re)loaded at any time, also while writing. Whether the server accepts
+			// is its business; which matrices are in force for which record is what the file oracle needs.
+			c := simrt.Draw(nchan)
+			nb := nbases
+			if simrt.Draw(3) == 0 {
+				nb = 1 + simrt.Draw(3)
+			}
+			projVer++
+			ps := wcMakeProj(c, projVer, nb, nsamp)
+			req = fmt.Sprintf("PROJECTORS channel %d v%d nbases %d", c, projVer, nb)
+			err = configure(c, ps)
+			if err == nil {
+				projNow[c] = ps
+				hasProj[c] = true
+				if prev.Active {
+					simrt.Hit("projectors-accepted-while-writing")
+				}
+			} else if prev.Active {
+				simrt.Hit("projectors-refused-while-writing")
+			}
+			if prev.Active && prev.WriteOFF && cur != nil && !cur.stopped && cur.offEligible[c] {
+				simrt.Hit("projectors-requested-for-a-channel-of-an-OFF-session")
+				if len(cur.expected[c][2]) == 0 {
+					simrt.Hit("projectors-requested-before-the-first-OFF-record")
+				}
+			}
+		default:
+			// the operator deletes or renames the directory of an earlier, stopped writing session
+			var cands []*wcSession
+			for _, s := range sessions {
+				if s.stopped && !s.gone {
+					cands = append(cands, s)
+				}
+			}
+			req = "operator: no stopped run directory to remove"
+			if len(cands) > 0 {
+				s := cands[simrt.Draw(len(cands))]
+				var e error
+				switch simrt.Draw(3) {
+				case 0:
+					e = os.RemoveAll(s.dir)
+					req = "operator deletes " + filepath.Base(s.dir)
+				case 1:
+					attic := filepath.Join(env.Dir, "attic")
+					os.MkdirAll(attic, 0755)
+					e = os.Rename(s.dir, filepath.Join(attic, fmt.Sprintf("run%d", removed)))
+					req = "operator moves " + filepath.Base(s.dir) + " out of the data tree"
+				default:
+					junk := fmt.Sprintf("%s.junk%d", s.dir, removed)
+					e = os.Rename(s.dir, junk)
+					req = "operator renames " + filepath.Base(s.dir) + " to " + filepath.Base(junk)
+				}
+				if e != nil {
+					simrt.Fail("harness.operator", "harness:operator", "%s: %v", req, e)
+				}
+				// that session's files are no longer checked, and its directory name is free again
+				s.gone = true
+				removed++
+				delete(dirsSeen, s.dir)
+				simrt.Hit("stopped-run-directory-removed")
+				if prev.Active {
+					simrt.Hit("stopped-run-directory-removed-while-writing")
+				}
+			}
 		}
 		hi := time.Now()
 		w.drain()
 		now := w.ss.ComputeWritingState()
 		env.Op("%s -> %v; reported %s", req, err, stateString(now))
-		if err != nil {
+		if err != nil && !diskFull() {
 			simrt.Hit("request-rejected")
 			if !sameState(prev, now) {
 				simrt.Fail("C06.rejected-request", "wc:rejected-request-changed-state", "request %s was rejected (%v) but the reported state changed from %s to %s", req, err, stateString(prev), stateString(now))
@@ -269,8 +417,16 @@ func wcBody(env *simrt.Env, check string) {
 			state = now
 			return
 		}
+		if err != nil {
+			// Disk-full runs: a request that was carried out may report the I/O failure of a side file.
+			// What it did is read from the reported state; report and behaviour must still agree.
+			simrt.Hit("request-error-under-full-disk")
+			if !sameState(prev, now) {
+				simrt.Hit("request-error-under-full-disk-with-state-change")
+			}
+		}
 		// the WRITING status message, when one was sent, equals the reported state
-		if m, found := w.sk.lastMsg("WRITING"); found && (strings.HasPrefix(req, "START") || strings.HasPrefix(req, "STOP") || strings.Contains(req, "PAUSE")) {
+		if m, found := w.sk.lastMsg("WRITING"); err == nil && found && (strings.HasPrefix(req, "START") || strings.HasPrefix(req, "STOP") || strings.Contains(req, "PAUSE")) {
 			if pp, isPP := m.state.(**WritingState); isPP && *pp != nil {
 				if !sameState(*pp, now) {
 					simrt.Fail("C06.status-message", "wc:status-differs", "after %s the WRITING status says %s but the server reports %s", req, stateString(*pp), stateString(now))
@@ -299,7 +455,8 @@ func wcBody(env *simrt.Env, check string) {
 				superseded = append(superseded, cur)
 				simrt.Hit("start-accepted-while-active")
 			}
-			cur = &wcSession{dir: dir, pattern: now.FilenamePattern, types: [3]bool{now.WriteLJH22, now.WriteLJH3, now.WriteOFF}, expected: make([][3][]*DataRecord, nchan)}
+			cur = &wcSession{dir: dir, pattern: now.FilenamePattern, types: [3]bool{now.WriteLJH22, now.WriteLJH3, now.WriteOFF}, expected: make([][3][]*DataRecord, nchan),
+				offEligible: append([]bool{}, hasProj...), projAtStart: append([]*wcProjSet{}, projNow...), offProj: make([][]*wcProjSet, nchan)}
 			sessions = append(sessions, cur)
 			if prev.Paused {
 				simrt.Hit("start-after-paused-run")
@@ -311,7 +468,7 @@ func wcBody(env *simrt.Env, check string) {
 			if now.Paused {
 				simrt.Fail("C06.stop-state", "wc:stop-leaves-paused", "after STOP the reported state is %s", stateString(now))
 			}
-			checkSessionFiles(w, check, cur, hasProj, nbases)
+			checkSessionFiles(w, check, cur)
 		}
 		if strings.HasPrefix(req, "PAUSE") && !prev.Active {
 			simrt.Hit("pause-before-start")
@@ -335,18 +492,28 @@ func wcBody(env *simrt.Env, check string) {
 		var ok bool
 		lo := time.Now()
 		err := w.sc.WriteControl(&WriteControlConfig{Request: "STOP"}, &ok)
-		env.Op("final STOP -> %v", err)
 		w.drain()
+		now := w.ss.ComputeWritingState()
+		env.Op("final STOP -> %v; reported %s", err, stateString(now))
+		if err != nil && !diskFull() {
+			simrt.Fail("C06.stop-state", "wc:stop-refused-while-active", "STOP was refused (%v) while the reported state was %s", err, stateString(state))
+		}
+		if now.Active {
+			// the report still says active (only possible when the STOP met an I/O failure): then records
+			// are still being stored, or the report is wrong
+			state = now
+			feed(1)
+		}
 		if cur != nil && !cur.stopped {
 			cur.stopped = true
 			cur.stopLo, cur.stopHi = lo, time.Now()
-			checkSessionFiles(w, check, cur, hasProj, nbases)
+			checkSessionFiles(w, check, cur)
 		}
 	}
 	if check != "C20" {
 		for _, s := range superseded {
 			// records emitted after the newer START belong to the newer session's files only
-			checkSessionFiles(w, check, s, hasProj, nbases)
+			checkSessionFiles(w, check, s)
 		}
 	}
 	w.stop()
@@ -362,8 +529,14 @@ func wcBody(env *simrt.Env, check string) {
 }
 
 // checkSessionFiles runs after a STOP: all files of the session are closed and complete.
-func checkSessionFiles(w *pipeWorld, check string, s *wcSession, hasProj []bool, nbases int) {
-	if fds := openFDsUnder(s.dir); len(fds) > 0 {
+func checkSessionFiles(w *pipeWorld, check string, s *wcSession) {
+	if s.gone {
+		return
+	}
+	// (in disk-full runs the affected side file's handle is on /dev/full, not under the run directory: every
+	// other file of the session, side files included, must be closed by a STOP even if it reported the failure)
+	fds := openFDsUnder(s.dir)
+	if len(fds) > 0 {
 		rule, sig := "C06.stop-closes-files", "wc:files-open-after-stop"
 		if check == "C20" {
 			rule, sig = "C20.closed-after-stop", "sidefiles:open-after-stop"
@@ -401,7 +574,7 @@ func checkSessionFiles(w *pipeWorld, check string, s *wcSession, hasProj []bool,
 					}
 				}
 				if check == "C05b" {
-					checkFileAgainstRecords(w, c, t, path, want, nbases)
+					checkFileAgainstRecords(w, c, t, path, want, s.offProj[c], s.projAtStart[c])
 				}
 			}
 		}
@@ -451,10 +624,10 @@ func framesInFile(t int, b []byte) ([]int64, error) {
 }
 
 // checkFileAgainstRecords is C05's content oracle in the pipeline world.
-func checkFileAgainstRecords(w *pipeWorld, c, t int, path string, recs []*DataRecord, nbases int) {
+func checkFileAgainstRecords(w *pipeWorld, c, t int, path string, recs []*DataRecord, projs []*wcProjSet, atStart *wcProjSet) {
 	rc := w.ss.rowColCodes[c]
 	p := chanParams{index: c, number: w.ss.chanNumbers[c], name: w.ss.chanNames[c], nsamp: w.nsamp, npre: w.npre, timebase: 1.0 / w.rate,
-		rows: rc.rows(), cols: rc.cols(), row: rc.row(), col: rc.col(), nchans: w.nchan, subdiv: w.ss.subframeDivisions, suboff: w.ss.subframeOffsets[c], nbases: nbases}
+		rows: rc.rows(), cols: rc.cols(), row: rc.row(), col: rc.col(), nchans: w.nchan, subdiv: w.ss.subframeDivisions, suboff: w.ss.subframeOffsets[c]}
 	var want []wantRec
 	for _, r := range recs {
 		want = append(want, wantRec{frame: int64(r.trigFrame), time: r.trigTime, pre: r.presamples, data: r.data, coefs: r.modelCoefs, ptMean: r.pretrigMean, ptDelt: r.pretrigDelta, resid: r.residualStdDev})
@@ -465,9 +638,57 @@ func checkFileAgainstRecords(w *pipeWorld, c, t int, path string, recs []*DataRe
 	case 1:
 		checkLJH3File(path, p, want, true)
 	default:
-		dsp := w.ss.processors[c]
-		p.proj, p.basis = dsp.projectors, dsp.basis
+		// the header must state the matrices that were in force for every record of the file
+		ps := atStart
+		for i, q := range projs {
+			if i == 0 {
+				ps = q
+			} else if q != ps {
+				simrt.Fail("C05.off-matrices", "files:off-matrices-replaced-under-open-file", "channel %d: OFF record %d was analysed with projector set v%d, record 0 with v%d: one header cannot state both", c, i, q.ver, ps.ver)
+			}
+		}
+		if ps == nil {
+			if len(recs) == 0 {
+				if _, err := os.Stat(path); err != nil {
+					return
+				}
+			}
+			simrt.Fail("C05.off-matrices", "files:off-file-without-projectors", "channel %d has an OFF file although no projectors were in force for it", c)
+		}
+		p.nbases = ps.nbases
+		p.proj, p.basis = mat.NewDense(ps.nbases, w.nsamp, append([]float64{}, ps.proj...)), mat.NewDense(w.nsamp, ps.nbases, append([]float64{}, ps.basis...))
 		checkOFFFile(path, p, want)
+		// independent of the bookkeeping above: the stored coefficients are the header's projectors applied
+		// to the record (documented meaning of the projector matrix: projectors x data = coefficients)
+		b, err := os.ReadFile(path)
+		if err != nil {
+			return
+		}
+		f, err := decodeOFF(b)
+		if err != nil || len(f.recs) != len(recs) || len(f.projectors) != f.nbases*w.nsamp {
+			return // reported by checkOFFFile
+		}
+		for i, r := range recs {
+			if len(r.data) != w.nsamp {
+				continue
+			}
+			for k := 0; k < f.nbases; k++ {
+				sum, mag := 0.0, 1.0
+				for j, v := range r.data {
+					x := float64(v)
+					if w.signed[c] {
+						x = float64(int16(v))
+					}
+					term := f.projectors[k*w.nsamp+j] * x
+					sum += term
+					mag += math.Abs(term)
+				}
+				if math.Abs(float64(f.recs[i].coefs[k])-sum) > 1e-5*mag {
+					simrt.Fail("C05.off-coefs-from-header", "files:off-coefs-not-from-header-projectors", "channel %d OFF record %d coefficient %d is %v, but the header's projectors applied to the record's samples give %v: the header does not state the matrices the record was analysed with", c, i, k, f.recs[i].coefs[k], sum)
+				}
+			}
+			simrt.Hit("off-coefs-recomputed-from-header")
+		}
 	}
 }
 
